@@ -140,8 +140,22 @@ def leanchecker(pid):
     if not mods:
         return {"ran": False}
     t0 = time.time()
-    rc, out = sh(["lake", "env", "leanchecker"] + mods, cwd=LEAN, timeout=7200)
-    return {"ran": True, "modules": len(mods), "rc": rc, "wall_s": round(time.time() - t0, 1), "output": out.strip()[-500:]}
+    # one process per group of modules (every module replays its own declarations only, but loads its imports)
+    n = min(16, len(mods))
+    groups = [mods[i::n] for i in range(n)]
+    procs = [subprocess.Popen(["lake", "env", "leanchecker"] + g, cwd=LEAN, stdout=subprocess.PIPE, stderr=subprocess.STDOUT, text=True) for g in groups]
+    rc, out = 0, ""
+    for pr in procs:
+        try:
+            o, _ = pr.communicate(timeout=7200)
+        except subprocess.TimeoutExpired:
+            pr.kill()
+            o = "leanchecker timed out"
+            rc = rc or 124
+        if pr.returncode:
+            rc = rc or pr.returncode
+        out += o or ""
+    return {"ran": True, "modules": len(mods), "processes": n, "rc": rc, "wall_s": round(time.time() - t0, 1), "output": out.strip()[-500:]}
 
 
 def source_scan(pid):
@@ -401,7 +415,11 @@ def decide(pid, cfg, tier, seed, t0):
     assumptions = list(cfg.get("assumptions", []))
     gen = regenerate()
     build_driver()
-    theorems = cfg.get("theorems", [])
+    theorems = list(cfg.get("theorems", []))
+    if theorems:
+        # per-run obligations: the current translation of every function the property's theorems mention (and of what
+        # they call) equals the baseline translation those theorems are about (Generated/Stable/*.lean)
+        theorems += [t for t in gen.get("translator", {}).get("stable", {}).get(pid, []) if t not in theorems]
     # proof obligations exist only for properties with registered theorems (a Properties file that is still
     # work in progress is not yet part of the claim)
     p_ok, p_err = build_property(pid) if theorems else (True, "")
